@@ -46,11 +46,13 @@ pub struct CmdDev {
     pub in_spin: bool,
     pub auto_manual_in_spin: bool,
     pub rng: Rng,
+    /// see QSrv::switch_after (applied to every queue of a polling device)
+    pub switch_after: Option<u64>,
 }
 
 impl CmdDev {
     pub fn new(rig: &Rig, queues: &[u16], policy: Policy, seed: u64) -> CmdDev {
-        CmdDev { st: rig.st.clone(), qs: BTreeMap::new(), queues: queues.to_vec(), policy, viol: vec![], log: vec![], handler: None, manual: vec![], in_spin: false, auto_manual_in_spin: false, rng: Rng::new(seed) }
+        CmdDev { st: rig.st.clone(), qs: BTreeMap::new(), queues: queues.to_vec(), policy, viol: vec![], log: vec![], handler: None, manual: vec![], in_spin: false, auto_manual_in_spin: false, rng: Rng::new(seed), switch_after: None }
     }
     fn ensure(&mut self) {
         let st = self.st.borrow();
@@ -59,7 +61,8 @@ impl CmdDev {
         }
         for q in &self.queues {
             if !self.qs.contains_key(q) {
-                if let Some(s) = QSrv::new(&st, *q, self.policy) {
+                if let Some(mut s) = QSrv::new(&st, *q, self.policy) {
+                    s.switch_after = self.switch_after;
                     self.qs.insert(*q, s);
                 }
             }
@@ -219,6 +222,10 @@ fn setup(case: u64, seed: u64, tag: u64, dt: DeviceType, extra_features: u64, co
     let policy = *rng.pick(&[Policy::OnNotify, Policy::Polling, Policy::Eager]);
     let (rig, t) = xport_any::build(kind, dt, offered, config);
     let dev = Rc::new(RefCell::new(CmdDev::new(&rig, queues, policy, rng.next())));
+    // every other polling device stops polling after 1..6 completions and serves on notification from then on
+    if policy == Policy::Polling && fbits >> 8 & 1 == 0 {
+        dev.borrow_mut().switch_after = Some(1 + (fbits >> 10) % 6);
+    }
     devsim::install_spin(&dev);
     let mut hh = Hash64::new();
     hh.u64(tag | (kind as u64) << 8 | (fbits & 3) << 16 | (policy as u64) << 24);
@@ -458,22 +465,39 @@ fn rtc_case(case: u64, seed: u64, want_sample: bool) -> CaseOut {
 
 fn p9_case(case: u64, seed: u64, want_sample: bool) -> CaseOut {
     let mut r0 = Rng::derive(seed, 0xC209, case, 0);
-    let tag: String = (0..r0.range(1, 24)).map(|i| (b'a' + ((r0.next() as u8).wrapping_add(i as u8) % 26)) as char).collect();
-    let mut cfg = (tag.len() as u16).to_le_bytes().to_vec();
-    cfg.extend_from_slice(tag.as_bytes());
+    // the tag the device reports: usually lower-case ASCII; one case in six arbitrary bytes (multi-byte UTF-8 or not UTF-8 at all)
+    let mut tag_bytes: Vec<u8> = (0..r0.range(1, 24)).map(|i| b'a' + ((r0.next() as u8).wrapping_add(i as u8) % 26)).collect();
+    if case / 10 % 6 == 5 {
+        let k = r0.below(tag_bytes.len() as u64) as usize;
+        match r0.below(3) {
+            0 => tag_bytes[k] = 0x80 | (r0.next() as u8 & 0x7f),
+            1 => tag_bytes.splice(k..k + 1, "é€".bytes()).for_each(drop),
+            _ => r0.fill(&mut tag_bytes),
+        }
+    }
+    let tag_str = String::from_utf8(tag_bytes.clone()).ok();
+    let tag: String = tag_str.clone().unwrap_or_else(|| format!("{:x?}", tag_bytes));
+    let mut cfg = (tag_bytes.len() as u16).to_le_bytes().to_vec();
+    cfg.extend_from_slice(&tag_bytes);
     while cfg.len() % 4 != 0 {
         cfg.push(0);
     }
     let (mut c, t, mut rng) = setup(case, seed, 3, DeviceType::_9P, 1, cfg, &[0], "9p");
     let mut drv = match catch_unwind(AssertUnwindSafe(|| VirtIO9p::<LedgerHal, AnyT>::new(t))) {
         Ok(Ok(d)) => d,
+        Ok(Err(_)) if tag_str.is_none() => {
+            // a tag that is not text cannot be returned as a string: refusing the device is the documented outcome
+            c.inc("p9_non_utf8_tags_refused");
+            return c.finish(case, want_sample, format!("tag {}", tag));
+        }
         other => {
             c.fail("C20", "construction_failed", format!("VirtIO9p::new: {:?}", other.map(|r| r.map(|_| ()))));
             return c.finish(case, want_sample, String::new());
         }
     };
-    if drv.mount_tag() != tag {
-        c.fail("C20", "mount_tag_wrong", format!("mount_tag() = {:?}, device says {:?}", drv.mount_tag(), tag));
+    // the value returned must be what the device reported, byte for byte
+    if drv.mount_tag().as_bytes() != tag_bytes {
+        c.fail("C20", "mount_tag_wrong", format!("mount_tag() = {:?}, device reports the bytes {:x?}", drv.mount_tag(), tag_bytes));
     }
     let plan: Rc<RefCell<(Vec<u8>, u32)>> = Rc::new(RefCell::new((vec![], 0)));
     let p2 = plan.clone();
@@ -764,7 +788,7 @@ fn gpu_case(case: u64, seed: u64, want_sample: bool, edid_only: bool) -> CaseOut
     }));
     let types = |m: &Rc<RefCell<GpuModel>>, from: usize| -> Vec<u32> { m.borrow().cmds[from..].iter().map(|c| c.0).collect() };
     let has_edid = edid_feat != 0 && devsim::negotiated(&c.rig) & 2 != 0;
-    let steps = if edid_only { 400 } else { 40 };
+    let steps = if cfg!(miri) { if edid_only { 6 } else { 10 } } else if edid_only { 400 } else { 40 };
     let mut fb: Option<(u32, u32)> = None;
     let mut cursor_set = false;
     for _ in 0..steps {
@@ -1538,10 +1562,8 @@ pub fn one_case(case: u64, seed: u64, want_sample: bool) -> CaseOut {
 }
 
 pub fn run(args: &Args, sh: &mut Shard) {
-    if args.is_miri() {
-        sh.inconclusive.push("driver-level checks use fabricated MMIO addresses for the real transports; C20 is not run under Miri".into());
-        return;
-    }
+    // under Miri: model transports only (see xport_any::set_model_only), tiny workloads
+    crate::xport_any::set_model_only(args.is_miri());
     if let Some(r) = &args.replay {
         let case = r.get("case").and_then(|x| x.as_u64()).unwrap_or(0);
         let o = one_case(case, args.seed, true);
@@ -1552,7 +1574,7 @@ pub fn run(args: &Args, sh: &mut Shard) {
         sh.evaluations = 1;
         return;
     }
-    let n = args.scaled(if args.thorough() { 200_000 } else { 8_000 });
+    let n = if args.is_miri() { 64 } else { args.scaled(if args.thorough() { 200_000 } else { 8_000 }) };
     let mut k = args.shard;
     while k < n {
         // stride coprime to 10 so that every shard sees every device
